@@ -437,7 +437,7 @@ where
         // Write buffer to stream
 
         self.stream
-            .write(&self.response_buffer[..position])
+            .write_all(&self.response_buffer[..position])
             .await
             .with_context(|| "write")?;
         self.stream.flush().await.with_context(|| "flush")?;
